@@ -196,6 +196,17 @@ def _establishes_csc(st, xname):
     return False
 
 
+def _narrow_sparse_guard(st, xname):
+    """an `if` around the conversion / refusal whose sparse-ness predicate is narrower than the
+    `issparse` the solvers dispatch on (`isspmatrix` is False for scipy sparse *arrays*)"""
+    if isinstance(st, ast.If):
+        for c in ast.walk(st.test):
+            if isinstance(c, ast.Call) and ast.unparse(c.func).split(".")[-1] == "isspmatrix" \
+                    and c.args and ast.unparse(c.args[0]) == xname:
+                return c
+    return None
+
+
 def r_solveformat(A, ctx, scope, rule="R-SOLVEFORMAT"):
     ctx.rule(rule, "sparse format at the solver entry: a solver whose `_solve` (or a kernel it calls) reads "
              "`X.data / X.indptr / X.indices` as a CSC triple only does so after the entry path "
@@ -218,6 +229,7 @@ def r_solveformat(A, ctx, scope, rule="R-SOLVEFORMAT"):
         n += 1
         first = min(r.lineno for r in reads)
         where = None
+        narrow = None
         for m in entry + [sf.cls.find_method("custom_checks")]:
             if m is None:
                 continue
@@ -225,6 +237,7 @@ def r_solveformat(A, ctx, scope, rule="R-SOLVEFORMAT"):
             for st in m.node.body:
                 if _establishes_csc(st, mx):
                     where = m.qualname
+                    narrow = narrow or _narrow_sparse_guard(st, mx)
                 # BaseSolver.solve: `if run_checks:` is the default path
                 if isinstance(st, ast.If) and "run_checks" in ast.unparse(st.test):
                     if any(_establishes_csc(s, mx) for s in st.body):
@@ -237,4 +250,13 @@ def r_solveformat(A, ctx, scope, rule="R-SOLVEFORMAT"):
                     f"{first}) and nothing on the way from solve() converts a sparse `{xname}` to CSC or refuses "
                     "other formats: solve(X_csr, ...) silently solves another problem (the rows are read as "
                     "columns) instead of raising or converting", loc=loc(f, reads[0]))
+        if where is not None:
+            # the guard of the conversion must cover what the solver's own dispatch calls sparse
+            uses_issparse = any(isinstance(c, ast.Call) and ast.unparse(c.func).split(".")[-1] == "issparse"
+                                for c in ast.walk(f.node))
+            ctx.ob(rule, f"{f.fq}::guard", not (narrow is not None and uses_issparse),
+                   what=f"the conversion on the way into {sname}._solve is guarded by `{norm_src(narrow) if narrow is not None else ''}`, "
+                        f"but {sname}._solve dispatches on `issparse({xname})`: scipy sparse *arrays* (csr_array, coo_array) "
+                        "are sparse for the solver and not for the guard, so they are not converted and their "
+                        "arrays are read as a CSC triple", loc=loc(f, reads[0]))
     ctx.floor(rule, n, scope.get("floor", 5))
